@@ -1,6 +1,7 @@
 #!/venv/bin/python
 """pytrans4.py — fail-closed translator of hpfeeds/broker/auth/json.py (Authenticator.load, Authenticator.get_authkey),
-hpfeeds/broker/auth/memory.py (Authenticator.get_authkey) and hpfeeds/broker/auth/multi.py (Authenticator.get_authkey)
+hpfeeds/broker/auth/memory.py (Authenticator.get_authkey), hpfeeds/broker/auth/multi.py (Authenticator.get_authkey) and
+hpfeeds/broker/auth/env.py (get_key, get_list, Authenticator.get_authkey; matched against the shapes the functions have)
 to Gallina (coq/StoreGen.v), in the layer of coq/PyStore.v.  coq/StoreGenEq.v proves the translated methods equal to
 Stores.load / Stores.json_get, the functions the C17/C18 theorems are about.
 
@@ -295,6 +296,108 @@ def multi_get_authkey():
             % (path, ident, m, r, m, ident, r, r))
 
 
+def env_store():
+    """env.py: module functions get_key / get_list and Authenticator.get_authkey, over the environment as a list of pairs and
+    str.upper as the parameter `upper`"""
+    path = 'hpfeeds/broker/auth/env.py'
+    tree = ast.parse(open(os.path.join(REPO, path)).read())
+    fns = {s.name: s for s in tree.body if isinstance(s, ast.FunctionDef)}
+    if not any(isinstance(s, ast.Import) and any(a.name == 'os' for a in s.names) for s in tree.body):
+        raise Unsupported(path, 'import os')
+    out = []
+    # get_key(ident, value, default=None)
+    g = fns.get('get_key')
+    if g is None or [a.arg for a in g.args.args] != ['ident', 'value', 'default'] or len(g.args.defaults) != 1 \
+            or not (isinstance(g.args.defaults[0], ast.Constant) and g.args.defaults[0].value is None):
+        raise Unsupported(path, 'get_key signature')
+    body = [x for x in g.body if not (isinstance(x, ast.Expr) and isinstance(x.value, ast.Constant))]
+
+    def is_upper(s, n):
+        return (isinstance(s, ast.Assign) and len(s.targets) == 1 and is_name(s.targets[0], n) and isinstance(s.value, ast.Call)
+                and is_attr(s.value.func, 'upper') and is_name(s.value.func.value, n) and not s.value.args)
+    ok = (len(body) == 4 and is_upper(body[0], 'ident') and is_upper(body[1], 'value')
+          and isinstance(body[2], ast.Assign) and is_name(body[2].targets[0], 'key') and isinstance(body[2].value, ast.Call)
+          and is_attr(body[2].value.func, 'join') and isinstance(body[2].value.func.value, ast.Constant)
+          and isinstance(body[2].value.func.value.value, str) and len(body[2].value.args) == 1
+          and isinstance(body[2].value.args[0], ast.Tuple)
+          and isinstance(body[3], ast.Return) and isinstance(body[3].value, ast.Call) and is_attr(body[3].value.func, 'get')
+          and is_attr(body[3].value.func.value, 'environ') and is_name(body[3].value.func.value.value, 'os')
+          and [a.id for a in body[3].value.args if is_name(a)] == ['key', 'default'])
+    if not ok:
+        raise Unsupported(g, 'get_key body')
+    parts = []
+    for x in body[2].value.args[0].elts:
+        if isinstance(x, ast.Constant) and isinstance(x.value, str):
+            parts.append(coq_str(x.value))
+        elif is_name(x) and x.id in ('ident', 'value'):
+            parts.append(x.id)
+        else:
+            raise Unsupported(x, 'join element')
+    out.append('(* %s: get_key; os.environ = env, str.upper = upper *)\n'
+               'Definition Env_get_key (upper : bytes -> bytes) (env : list (bytes * bytes)) (ident value : bytes) (default : option bytes) : option bytes :=\n'
+               '  let ident := upper ident in\n  let value := upper value in\n'
+               '  let key := py_join %s [%s] in\n  env_dict_get env key default.'
+               % (path, coq_str(body[2].value.func.value.value), '; '.join(parts)))
+    # get_list(ident, value): [item for item in get_key(ident, value, '').split(',') if item]
+    g = fns.get('get_list')
+    if g is None or [a.arg for a in g.args.args] != ['ident', 'value'] or g.args.defaults:
+        raise Unsupported(path, 'get_list signature')
+    body = [x for x in g.body if not (isinstance(x, ast.Expr) and isinstance(x.value, ast.Constant))]
+    ok = False
+    if len(body) == 1 and isinstance(body[0], ast.Return) and isinstance(body[0].value, ast.ListComp):
+        lc = body[0].value
+        if len(lc.generators) == 1 and is_name(lc.elt) and is_name(lc.generators[0].target, lc.elt.id) and not lc.generators[0].is_async:
+            gen = lc.generators[0]
+            it = gen.iter
+            if (len(gen.ifs) == 1 and is_name(gen.ifs[0], lc.elt.id) and isinstance(it, ast.Call) and is_attr(it.func, 'split')
+                    and len(it.args) == 1 and isinstance(it.args[0], ast.Constant) and it.args[0].value == ',' and isinstance(it.func.value, ast.Call)
+                    and is_name(it.func.value.func, 'get_key') and len(it.func.value.args) == 3
+                    and [a.id for a in it.func.value.args[:2] if is_name(a)] == ['ident', 'value']
+                    and isinstance(it.func.value.args[2], ast.Constant) and it.func.value.args[2].value == ''):
+                ok = True
+    if not ok:
+        raise Unsupported(g, 'get_list body')
+    out.append('(* %s: get_list *)\n'
+               'Definition Env_get_list (upper : bytes -> bytes) (env : list (bytes * bytes)) (ident value : bytes) : list bytes :=\n'
+               '  filter str_truthy (py_split_comma (opt_str (Env_get_key upper env ident value (Some [])))).' % path)
+    # Authenticator.get_authkey
+    ident, body = simple_method(path, 'Authenticator', 'get_authkey')
+    ok = False
+    if len(body) == 3 and isinstance(body[0], ast.Assign) and is_name(body[0].targets[0]) and isinstance(body[2], ast.Return) \
+            and isinstance(body[2].value, ast.Dict):
+        sec = body[0].targets[0].id
+        v = body[0].value
+        c1 = (isinstance(v, ast.Call) and is_name(v.func, 'get_key') and len(v.args) == 2 and is_name(v.args[0], ident)
+              and isinstance(v.args[1], ast.Constant) and v.args[1].value == 'secret' and not v.keywords)
+        i = body[1]
+        c2 = (isinstance(i, ast.If) and not i.orelse and isinstance(i.test, ast.UnaryOp) and isinstance(i.test.op, ast.Not)
+              and is_name(i.test.operand, sec) and len(i.body) == 1 and is_none_return(i.body[0]))
+        d = body[2].value
+        keys = [k.value for k in d.keys if isinstance(k, ast.Constant)]
+        fields = dict(zip(keys, d.values))
+        c3 = sorted(keys) == ['ident', 'owner', 'pubchans', 'secret', 'subchans'] and len(keys) == len(d.keys)
+        if c1 and c2 and c3:
+            o = fields['owner']
+            co = (isinstance(o, ast.Call) and is_name(o.func, 'get_key') and len(o.args) == 3 and is_name(o.args[0], ident)
+                  and isinstance(o.args[1], ast.Constant) and o.args[1].value == 'owner' and is_name(o.args[2], ident))
+
+            def lst(x, nm):
+                return (isinstance(x, ast.Call) and is_name(x.func, 'get_list') and len(x.args) == 2 and is_name(x.args[0], ident)
+                        and isinstance(x.args[1], ast.Constant) and x.args[1].value == nm)
+            ok = (co and is_name(fields['ident'], ident) and is_name(fields['secret'], sec)
+                  and lst(fields['pubchans'], 'pubchans') and lst(fields['subchans'], 'subchans'))
+    if not ok:
+        raise Unsupported(path, 'env get_authkey shape')
+    out.append('(* %s: Authenticator.get_authkey *)\n'
+               'Definition Env_get_authkey (upper : bytes -> bytes) (env : list (bytes * bytes)) (%s : bytes) : option cred :=\n'
+               '  let %s := Env_get_key upper env %s (B "secret") None in\n'
+               '  if negb (optstr_truthy %s) then None else\n'
+               '  Some (mkcred (opt_str %s) (opt_str (Env_get_key upper env %s (B "owner") (Some %s)))\n'
+               '               (Env_get_list upper env %s (B "pubchans")) (Env_get_list upper env %s (B "subchans"))).'
+               % (path, ident, sec, ident, sec, sec, ident, ident, ident, ident))
+    return out
+
+
 def main():
     try:
         tree = ast.parse(open(os.path.join(REPO, SRC)).read())
@@ -326,6 +429,7 @@ def main():
                             '  fnS None %s.' % (SRC, params[1], body))
         defs.append(memory_get_authkey())
         defs.append(multi_get_authkey())
+        defs.extend(env_store())
         txt = ('(* GENERATED by harness/pytrans4.py from %s - do not edit *)\n'
                'From Coq Require Import List Bool String.\nFrom Coq Require Import Strings.Byte.\n'
                'From HP Require Import Bytes Stores PyStore.\nImport ListNotations.\nOpen Scope string_scope.\n\n'
